@@ -3,7 +3,7 @@
 (* through serializer, full-copy reader and ε-copy reader on perfect       *)
 (* sink/reader; public entry points with the harness' type-name lengths    *)
 (* and body-only runs at every preceding length 0..Pres.                   *)
-EXTENDS EpsSystem, IOUtils
+EXTENDS EpsSystem, Derive, IOUtils
 
 CONSTANTS TypeSet, Pres
 
@@ -11,7 +11,7 @@ CONSTANTS TypeSet, Pres
 NameLens == IF "NAMES" \in DOMAIN IOEnv THEN JsonDeserialize(IOEnv.NAMES) ELSE [x \in {} |-> 0]
 NameLenOf(t) == LET k == Key(Norm(t)) IN IF k \in DOMAIN NameLens THEN NameLens[k] ELSE 0
 
-TS == TypesOf(TypeSet)
+TS == IF TypeSet = "grammar" THEN GrammarTypes ELSE TypesOf(TypeSet)
 
 \* The initial choice is written with nested quantifiers rather than as membership in a set
 \* of case records: TLC would have to build and sort that set (minutes for 3*10^4 records).
